@@ -94,6 +94,22 @@ def judge_direct(r, ctx):
     del holder
     if kids:
         ctx.nontrivial(text)
+    # the same helper on the text as written (escapes of unreserved characters still present, e.g. %2e%2e segments)
+    raw = u["text"]
+    if raw != text:
+        try:
+            kids2 = nw.parse_url(raw)
+        except ValueError:
+            return
+        except Exception as e:  # noqa: BLE001
+            report("direct:" + scan.exc_key(e), f"parse_url raised {scan.exc_text(e)} on {raw[:80]!r}")
+            return
+        U2 = Node("network.url", raw, "", 0, len(raw), children=kids2)
+        holder2 = Node("", raw, "", 0, len(raw), children=[U2])
+        ctx.count("direct_calls_on_unnormalised_text")
+        mon_net.check_c12_url(U2, lambda k, m: ctx.violation(k, f"{m}; direct call on the un-normalised text {raw[:100]!r}",
+                                                             {"kind": "direct", "data": runner.hx(raw)}), ctx.counters, require_presence=False)
+        del holder2
 
 
 def run_shard(spec, ctx):
